@@ -35,12 +35,20 @@ Qed.
 Section Phase1.
   Variable ms : list move.
   Variable free : list reg.
-  Hypothesis WF : wf ms free.
+  Variable ck : value -> Z.                   (* key of unprocessed_children: by SSA value or by register *)
+  Variable wl : value -> reg -> option Z.     (* width lookup: by SSA value or by output register *)
+  Variable ch0 : Z -> Z.                      (* unprocessed_children after the first loop *)
+  Hypothesis WF : wf_all ms free.
+  Hypothesis Hkey : forall a b, In a ms -> In b ms ->
+    (ck (m_value a) = ck (m_value b) <-> m_src a = m_src b).
+  Hypothesis Hw : forall m, In m ms -> trivb m = false -> wl (m_value m) (m_dst m) = Some (m_w m).
+  Hypothesis Hch0 : forall k,
+    ch0 k = Z.of_nat (length (filter (fun m => negb (trivb m) && (ck (m_value m) =? k)) ms)).
 
   Notation P := (src_by_dst (loop1 ms)).
   Notation oidx := (output_index ms).
-  Notation wofn := (src_type_by_src ms).
-  Let ND : NoDup (map m_dst ms) := wf_dsts _ _ WF.
+  Notation walk := (walk ck wl ms (loop1 ms)).
+  Let ND : NoDup (map m_dst ms) := wa_dsts _ _ WF.
 
   (* the result slot of destination register r is filled *)
   Definition doneb (rs : list (option value)) (r : reg) : bool :=
@@ -61,7 +69,7 @@ Section Phase1.
   Lemma nontriv_dst_nonzero m : In m ms -> trivb m = false -> m_dst m <> ZERO.
   Proof.
     intros I T E. apply trivb_false in T. apply T.
-    rewrite (wf_zero _ _ WF m I E). now rewrite E.
+    rewrite (wa_zero _ _ WF m I E). now rewrite E.
   Qed.
 
   Lemma doneb_lset rs i v d r :
@@ -87,7 +95,7 @@ Section Phase1.
   Qed.
 
   Definition undone (rs : list (option value)) (v : Z) (m : move) : bool :=
-    negb (trivb m) && (m_val m =? v) && negb (doneb rs (m_dst m)).
+    negb (trivb m) && (ck (m_value m) =? v) && negb (doneb rs (m_dst m)).
 
   (* ---- the invariant of the tree phase ---- *)
   Record Inv (s : state) : Prop := mkInv {
@@ -111,21 +119,21 @@ Section Phase1.
     P r <> None -> (exists m, In m ms /\ trivb m = false /\ m_src m = r) -> ready rs r -> doneb rs r = true.
 
   Lemma walk_eq fuel cur s :
-    walk ms fuel cur s =
+    walk fuel cur s =
     match fuel with
     | O => OutOfFuel
     | S f =>
         match P cur with
         | None => Ok (s, cur)
         | Some src =>
-            do w <- key (wofn (vid src));
+            do w <- key (wl src cur);
             do '(e1, nv) <- insert_mv (em s) src cur w;
             do i <- key (oidx cur);
             match nth_error (results s) i with
             | Some None =>
-                let ch := upd (children s) (vid src) (children s (vid src) - 1) in
+                let ch := upd (children s) (ck src) (children s (ck src) - 1) in
                 let s1 := mkS e1 (lset i (Some nv) (results s)) ch in
-                if negb (ch (vid src) =? 0) then Ok (s1, cur) else walk ms f (vreg src) s1
+                if negb (ch (ck src) =? 0) then Ok (s1, cur) else walk f (vreg src) s1
             | _ => Raise EAssertion
             end
         end
@@ -138,7 +146,7 @@ Section Phase1.
     doneb (results s) (m_dst m) = false -> ready (results s) (m_dst m) ->
     oidx (m_dst m) = Some i ->
     insert_mv (em s) (m_value m) (m_dst m) (m_w m) = Ok (e1, nv) ->
-    let ch := upd (children s) (m_val m) (children s (m_val m) - 1) in
+    let ch := upd (children s) (ck (m_value m)) (children s (ck (m_value m)) - 1) in
     let s1 := mkS e1 (lset i (Some nv) (results s)) ch in
     Inv s1 /\ (forall r, doneb (results s1) r = if r =? m_dst m then true else doneb (results s) r).
   Proof.
@@ -149,7 +157,7 @@ Section Phase1.
     assert (DB : forall r, doneb (results s1) r = if r =? m_dst m then true else doneb (results s) r).
     { intros r. unfold s1. simpl. now apply doneb_lset. }
     split; [|exact DB].
-    assert (Ksrc : is_float (vreg (m_value m)) = is_float (m_dst m)) by (apply (wf_kinds _ _ WF m Im)).
+    assert (Ksrc : is_float (vreg (m_value m)) = is_float (m_dst m)) by (apply (wa_kinds _ _ WF m Im)).
     destruct (insert_mv_Ok _ _ _ _ _ _ Hins Ksrc) as (_ & _ & ins & -> & _ & Hstep).
     assert (NZ : m_dst m <> ZERO) by (now apply nontriv_dst_nonzero).
     assert (Nsd : m_src m <> m_dst m) by (now apply trivb_false).
@@ -182,10 +190,10 @@ Section Phase1.
       destruct (Z.eqb_spec (m_src m') (m_dst m)) as [E2|E2].
       + now apply Rd.
       + now apply (I_closed s IV).
-    - intros v. change (children s1 v) with (upd (children s) (m_val m) (children s (m_val m) - 1) v).
-      unfold upd. destruct (Z.eqb_spec v (m_val m)) as [->|Nv].
+    - intros v. change (children s1 v) with (upd (children s) (ck (m_value m)) (children s (ck (m_value m)) - 1) v).
+      unfold upd. destruct (Z.eqb_spec v (ck (m_value m))) as [->|Nv].
       + rewrite (I_cnt s IV).
-        rewrite (filter_flip m_dst (undone (results s) (m_val m)) (undone (results s1) (m_val m)) ms m ND Im).
+        rewrite (filter_flip m_dst (undone (results s) (ck (m_value m))) (undone (results s1) (ck (m_value m))) ms m ND Im).
         * lia.
         * unfold undone. rewrite Tm, Z.eqb_refl, Dn. reflexivity.
         * unfold undone. rewrite DB, !Z.eqb_refl. simpl. apply andb_false_r.
@@ -195,7 +203,7 @@ Section Phase1.
         unfold undone. rewrite DB.
         destruct (Z.eqb_spec (m_dst y) (m_dst m)) as [E|E]; [|reflexivity].
         assert (y = m) by (now apply dst_inj). subst y.
-        destruct (Z.eqb_spec (m_val m) v); [congruence|]. now rewrite !andb_false_r.
+        destruct (Z.eqb_spec (ck (m_value m)) v); [congruence|]. now rewrite !andb_false_r.
     - intros m' Im' Tm' Dm' Cy. rewrite DB in Dm'.
       destruct (Z.eqb_spec (m_dst m') (m_dst m)) as [E|E]; [|now apply (I_nocyc s IV m' Im' Tm')].
       destruct (on_cycle_child ms _ Cy) as (c & (mc & Imc & Nmc & Smc & Dmc) & Cc).
@@ -204,31 +212,25 @@ Section Phase1.
       apply Rd; [assumption|assumption|congruence].
   Qed.
 
-  Lemma wof_of m : In m ms -> wofn (m_val m) = Some (m_w m).
-  Proof.
-    intros I. destruct (wof_In ms m I) as (m' & I' & E & H). rewrite H. f_equal.
-    now apply (wf_width _ _ WF).
-  Qed.
-
   (* the counter of a value is zero exactly when every move reading its register is emitted *)
   Lemma cnt_zero_ready s m : Inv s -> In m ms ->
-    (children s (m_val m) = 0 <-> ready (results s) (m_src m)).
+    (children s (ck (m_value m)) = 0 <-> ready (results s) (m_src m)).
   Proof.
     intros IV Im. rewrite (I_cnt s IV). split.
     - intros Z0 y Iy Ty Sy.
-      assert (E : filter (undone (results s) (m_val m)) ms = []).
+      assert (E : filter (undone (results s) (ck (m_value m))) ms = []).
       { destruct (filter _ ms) eqn:F; [reflexivity|]. simpl in Z0. lia. }
       destruct (doneb (results s) (m_dst y)) eqn:D; [reflexivity|]. exfalso.
-      assert (In y (filter (undone (results s) (m_val m)) ms)).
+      assert (In y (filter (undone (results s) (ck (m_value m))) ms)).
       { apply filter_In. split; [assumption|]. unfold undone. rewrite Ty, D. simpl.
-        rewrite andb_true_r. apply Z.eqb_eq. now apply (wf_ssa _ _ WF). }
+        rewrite andb_true_r. apply Z.eqb_eq. now apply (Hkey y m). }
       rewrite E in H. destruct H.
     - intros R. destruct (filter _ ms) as [|y l] eqn:F; [reflexivity|]. exfalso.
-      assert (Iy : In y (filter (undone (results s) (m_val m)) ms)) by (rewrite F; now left).
+      assert (Iy : In y (filter (undone (results s) (ck (m_value m))) ms)) by (rewrite F; now left).
       apply filter_In in Iy as [Iy U]. unfold undone in U.
       apply andb_true_iff in U as [U U3]. apply andb_true_iff in U as [U1 U2].
       apply Z.eqb_eq in U2. apply negb_true_iff in U1, U3.
-      rewrite (R y Iy U1) in U3; [discriminate|]. now apply (wf_ssa _ _ WF).
+      rewrite (R y Iy U1) in U3; [discriminate|]. now apply (Hkey y m).
   Qed.
 
   Definition Gexc (rs : list (option value)) (x : reg) : Prop := forall r, r <> x -> Gat rs r.
@@ -238,7 +240,7 @@ Section Phase1.
     (P cur <> None -> doneb (results s) cur = false) ->
     ready (results s) cur ->
     Gexc (results s) cur ->
-    match walk ms fuel cur s with
+    match walk fuel cur s with
     | Ok (s', cur') =>
         Inv s' /\ (forall r, Gat (results s') r)
         /\ (forall r, doneb (results s) r = true -> doneb (results s') r = true)
@@ -255,9 +257,9 @@ Section Phase1.
         intros r. destruct (Z.eq_dec r cur) as [->|N]; [|now apply Gc].
         intros H. congruence. }
     destruct (P_inv _ _ Pc) as (m & Im & Tm & Dm & ->). subst cur.
-    simpl vid. rewrite (wof_of m Im). simpl key. simpl bind.
-    assert (Ksrc : is_float (vreg (m_value m)) = is_float (m_dst m)) by (apply (wf_kinds _ _ WF m Im)).
-    destruct (insert_mv_res (em s) (m_value m) (m_dst m) (m_w m) Ksrc) as [(e1 & nv & Hins)|[Hins Hw]].
+    rewrite (Hw m Im Tm). simpl key. simpl bind.
+    assert (Ksrc : is_float (vreg (m_value m)) = is_float (m_dst m)) by (apply (wa_kinds _ _ WF m Im)).
+    destruct (insert_mv_res (em s) (m_value m) (m_dst m) (m_w m) Ksrc) as [(e1 & nv & Hins)|[Hins Hbw]].
     2:{ rewrite Hins. simpl. split; [reflexivity|]. exists m. auto. }
     rewrite Hins. simpl bind.
     destruct (In_nth_error _ _ Im) as [i Hi].
@@ -266,7 +268,7 @@ Section Phase1.
     rewrite (doneb_false_slot (results s) (m_dst m) i (I_len s IV) (output_index_of ms i m ND Hi) Dn).
     destruct (step_inv s m i e1 nv IV Im Tm Dn Rc (output_index_of ms i m ND Hi) Hins) as [IV1 DB].
     cbv zeta. simpl vreg.
-    set (s1 := mkS e1 (lset i (Some nv) (results s)) (upd (children s) (m_val m) (children s (m_val m) - 1))) in *.
+    set (s1 := mkS e1 (lset i (Some nv) (results s)) (upd (children s) (ck (m_value m)) (children s (ck (m_value m)) - 1))) in *.
     assert (Mono : forall r, doneb (results s) r = true -> doneb (results s1) r = true).
     { intros r H. rewrite DB. destruct (r =? m_dst m); auto. }
     (* Gat in s1 for every register except the parent of the move just emitted *)
@@ -275,9 +277,9 @@ Section Phase1.
       apply (Gc r E Pr Cr). intros y Iy Ty Sy. specialize (Rr y Iy Ty Sy). rewrite DB in Rr.
       destruct (Z.eqb_spec (m_dst y) (m_dst m)) as [E2|E2]; [|assumption].
       assert (y = m) by (now apply dst_inj). subst y. congruence. }
-    assert (Hch : upd (children s) (m_val m) (children s (m_val m) - 1) (m_val m) = children s1 (m_val m)) by reflexivity.
+    assert (Hch : upd (children s) (ck (m_value m)) (children s (ck (m_value m)) - 1) (ck (m_value m)) = children s1 (ck (m_value m))) by reflexivity.
     rewrite Hch.
-    destruct (Z.eqb_spec (children s1 (m_val m)) 0) as [Z0|Z0]; simpl negb; cbv iota.
+    destruct (Z.eqb_spec (children s1 (ck (m_value m))) 0) as [Z0|Z0]; simpl negb; cbv iota.
     - (* continue up the tree *)
       assert (R1 : ready (results s1) (m_src m)) by (now apply (cnt_zero_ready s1 m IV1 Im)).
       assert (Nsd : m_src m <> m_dst m) by (now apply trivb_false).
@@ -290,7 +292,7 @@ Section Phase1.
           (doneb_false_slot (results s) (m_dst m) i (I_len s IV) (output_index_of ms i m ND Hi) Dn)) as H.
         change (lset i (Some nv) (results s)) with (results s1) in H. lia. }
       specialize (IH (m_src m) s1 IV1 Fu1 D1 R1 G1).
-      destruct (walk ms f (m_src m) s1) as [[s' cur']|e|]; [|exact IH|exact IH].
+      destruct (walk f (m_src m) s1) as [[s' cur']|e|]; [|exact IH|exact IH].
       destruct IH as (IV' & G' & Mo' & Back' & _).
       split; [assumption|]. split; [assumption|]. split; [auto|]. split.
       + intros r H. apply Back' in H as [H|[H|H]]; auto.
@@ -324,15 +326,15 @@ Section Phase1.
     J_leafdone : forall r, In r pre -> lvs r = true -> doneb (results s) r = true }.
 
   Lemma loop2_fold_raise c e ds :
-    fold_left (loop2_step c ms lvs) ds (Raise e) = Raise e.
+    fold_left (loop2_step c ck wl ms (loop1 ms) lvs) ds (Raise e) = Raise e.
   Proof. induction ds; simpl; auto. Qed.
   Lemma loop2_fold_fuel c ds :
-    fold_left (loop2_step c ms lvs) ds OutOfFuel = OutOfFuel.
+    fold_left (loop2_step c ck wl ms (loop1 ms) lvs) ds OutOfFuel = OutOfFuel.
   Proof. induction ds; simpl; auto. Qed.
 
   Lemma loop2_spec c : forall ds pre s fi ff,
     Inv2 s pre -> NoDup (pre ++ ds) ->
-    match fold_left (loop2_step c ms lvs) ds (Ok (s, fi, ff)) with
+    match fold_left (loop2_step c ck wl ms (loop1 ms) lvs) ds (Ok (s, fi, ff)) with
     | Ok (s', fi', ff') =>
         Inv2 s' (pre ++ ds)
         /\ (root_free c = false -> fi' = fi /\ ff' = ff)
@@ -360,7 +362,7 @@ Section Phase1.
       assert (Fu : (count_none (results s) < loop_fuel ms)%nat).
       { pose proof (count_none_le (results s)). rewrite (I_len s Ji) in H. unfold loop_fuel. lia. }
       pose proof (walk_spec (loop_fuel ms) d s Ji Fu (fun _ => Dd) Rd (fun r _ => Jg r)) as W.
-      destruct (walk ms (loop_fuel ms) d s) as [[s1 cur]|e|]; cbn [bind].
+      destruct (walk (loop_fuel ms) d s) as [[s1 cur]|e|]; cbn [bind].
       + destruct W as (I1 & G1 & Mo & Back & Dn).
         assert (J1 : Inv2 s1 (pre ++ [d])).
         { constructor; auto.
@@ -369,7 +371,7 @@ Section Phase1.
           - intros r Ir Lr. apply in_app_or in Ir as [Ir|[<-|[]]]; [apply Mo; auto|now apply Dn]. }
         assert (Hgen : forall fi1 ff1, (root_free c = false -> fi1 = fi /\ ff1 = ff) ->
                   (exists xi xf, fi1 = fi ++ xi /\ ff1 = ff ++ xf) ->
-                  match fold_left (loop2_step c ms lvs) ds (Ok (s1, fi1, ff1)) with
+                  match fold_left (loop2_step c ck wl ms (loop1 ms) lvs) ds (Ok (s1, fi1, ff1)) with
                   | Ok (s', fi', ff') =>
                       Inv2 s' (pre ++ d :: ds) /\ (root_free c = false -> fi' = fi /\ ff' = ff)
                       /\ (exists xi xf, fi' = fi ++ xi /\ ff' = ff ++ xf)
@@ -378,7 +380,7 @@ Section Phase1.
                   end).
         { intros fi1 ff1 H1 H2. specialize (IH (pre ++ [d]) s1 fi1 ff1 J1 NDp').
           rewrite <- app_assoc in IH. simpl in IH.
-          destruct (fold_left (loop2_step c ms lvs) ds (Ok (s1, fi1, ff1))) as [[[s' fi'] ff']|e|]; auto.
+          destruct (fold_left (loop2_step c ck wl ms (loop1 ms) lvs) ds (Ok (s1, fi1, ff1))) as [[[s' fi'] ff']|e|]; auto.
           destruct IH as (A & B & (xi & xf & -> & ->)). split; [assumption|]. split.
           - intros Rf. destruct (B Rf) as [-> ->]. auto.
           - destruct H2 as (yi & yf & -> & ->). exists (yi ++ xi), (yf ++ xf). now rewrite !app_assoc. }
@@ -395,9 +397,9 @@ Section Phase1.
   Definition core {A B C} (r : res (A * B * C)) : res A :=
     match r with Ok (a, _, _) => Ok a | Raise e => Raise e | OutOfFuel => OutOfFuel end.
   Lemma loop2_step_eq c s fi ff d :
-    loop2_step c ms lvs (Ok (s, fi, ff)) d =
+    loop2_step c ck wl ms (loop1 ms) lvs (Ok (s, fi, ff)) d =
     if negb (lvs d) then Ok (s, fi, ff) else
-    do '(s1, cur) <- walk ms (loop_fuel ms) d s;
+    do '(s1, cur) <- walk (loop_fuel ms) d s;
     match P cur with
     | None =>
         if root_free c
@@ -407,13 +409,13 @@ Section Phase1.
     end.
   Proof. reflexivity. Qed.
   Lemma loop2_core c : forall ds s fi ff fi0 ff0,
-    core (fold_left (loop2_step c ms lvs) ds (Ok (s, fi, ff))) =
-    core (fold_left (loop2_step repaired ms lvs) ds (Ok (s, fi0, ff0))).
+    core (fold_left (loop2_step c ck wl ms (loop1 ms) lvs) ds (Ok (s, fi, ff))) =
+    core (fold_left (loop2_step repaired ck wl ms (loop1 ms) lvs) ds (Ok (s, fi0, ff0))).
   Proof.
     induction ds as [|d ds IH]; intros s fi ff fi0 ff0; [reflexivity|].
     cbn [fold_left]. rewrite !loop2_step_eq.
     destruct (negb (lvs d)); [apply IH|].
-    destruct (walk ms (loop_fuel ms) d s) as [[s1 cur]|e|]; cbn [bind].
+    destruct (walk (loop_fuel ms) d s) as [[s1 cur]|e|]; cbn [bind].
     - destruct (P cur); [apply IH|]. cbn [root_free repaired].
       destruct (root_free c); [destruct (is_float cur)|]; apply IH.
     - now rewrite !loop2_fold_raise.
@@ -421,7 +423,7 @@ Section Phase1.
   Qed.
 
   (* ---- the state after the tree phase: what is still unresolved lies on cycles ---- *)
-  Lemma inv0 : Inv (mkS [] (results0 (loop1 ms)) (children0 (loop1 ms))).
+  Lemma inv0 : Inv (mkS [] (results0 (loop1 ms)) ch0).
   Proof.
     assert (D0 : forall m, In m ms -> trivb m = false -> doneb (results0 (loop1 ms)) (m_dst m) = false).
     { intros m Im Tm. destruct (In_nth_error _ _ Im) as [i Hi]. unfold doneb.
@@ -432,12 +434,12 @@ Section Phase1.
     - intros rho. split; [|reflexivity]. intros m Im Tm Dm. rewrite (D0 m Im Tm) in Dm. discriminate.
     - intros m Im Tm Ps Ds. exfalso. destruct (P (m_src m)) as [v|] eqn:E; [|congruence].
       destruct (P_inv _ _ E) as (m' & Im' & Tm' & Dm' & _). rewrite <- Dm', (D0 m' Im' Tm') in Ds. discriminate.
-    - intros v. rewrite (children0_spec ms). f_equal. f_equal. apply filter_ext_in. intros m Im.
+    - intros v. rewrite Hch0. f_equal. f_equal. apply filter_ext_in. intros m Im.
       unfold undone. destruct (trivb m) eqn:Tm; simpl; [reflexivity|].
       rewrite (D0 m Im Tm). simpl. now rewrite andb_true_r.
     - intros m Im Tm Dm. rewrite (D0 m Im Tm) in Dm. discriminate.
   Qed.
-  Lemma inv2_0 : Inv2 (mkS [] (results0 (loop1 ms)) (children0 (loop1 ms))) [].
+  Lemma inv2_0 : Inv2 (mkS [] (results0 (loop1 ms)) ch0) [].
   Proof.
     constructor; [apply inv0| | |intros r []].
     - intros r Pr (m & Im & Tm & Sm) Rr. exfalso.
@@ -462,16 +464,16 @@ Section Phase1.
     destruct (existsb (fun y => negb (trivb y) && (m_src y =? d)) ms) eqn:Ex.
     - apply existsb_exists in Ex as (m & Im & H). apply andb_true_iff in H as [Tm Sm].
       apply negb_true_iff in Tm. apply Z.eqb_eq in Sm.
-      destruct (Z.eq_dec (children s (m_val m)) 0) as [Z0|Z0].
+      destruct (Z.eq_dec (children s (ck (m_value m))) 0) as [Z0|Z0].
       + exfalso. apply (cnt_zero_ready s m Ji Im) in Z0. rewrite Sm in Z0.
         rewrite (Jg d) in Dd; [discriminate|congruence|eauto|assumption].
       + rewrite (I_cnt s Ji) in Z0.
-        destruct (filter (undone (results s) (m_val m)) ms) as [|y l] eqn:F; [simpl in Z0; lia|].
-        assert (Iy : In y (filter (undone (results s) (m_val m)) ms)) by (rewrite F; now left).
+        destruct (filter (undone (results s) (ck (m_value m))) ms) as [|y l] eqn:F; [simpl in Z0; lia|].
+        assert (Iy : In y (filter (undone (results s) (ck (m_value m))) ms)) by (rewrite F; now left).
         apply filter_In in Iy as [Iy U]. unfold undone in U.
         apply andb_true_iff in U as [U U3]. apply andb_true_iff in U as [U1 U2].
         apply Z.eqb_eq in U2. apply negb_true_iff in U1, U3.
-        exists y. repeat split; auto. rewrite <- Sm. now apply (wf_ssa _ _ WF).
+        exists y. repeat split; auto. rewrite <- Sm. now apply (Hkey y m).
     - (* no outgoing move: d is a leaf and was resolved by its own walk *)
       exfalso. assert (L : lvs d = true).
       { apply (leaves_spec ms). split; [rewrite <- Dm0; now apply in_map|].
